@@ -348,6 +348,8 @@ pub fn clicases(kind: &str, seed: u64, n: usize) -> Value {
                     "input": esc(&case.input),
                     "nlines": lines.len(),
                     "matches": nm,
+                    "match_spans": crate::c13::whole_input_matches(&orc, &case.input)
+                        .iter().map(|(s, e)| json!([s, e])).collect::<Vec<_>>(),
                     "covered": covered.iter().enumerate().filter(|(_, &c)| c).map(|(i, _)| i + 1).collect::<Vec<_>>(),
                 }));
             }
